@@ -144,6 +144,10 @@ func (g *prog) points(add func(r rune)) {
 
 // Compare decides the relation between expressions a and b.
 func Compare(a, b string, mode Mode, opt Options) (Result, error) {
+	if len(a)+len(b) > 30000 {
+		// far beyond anything the explored spaces produce legitimately: give no verdict instead of burning the budget
+		return Result{Holds: true, Inconclusive: true}, nil
+	}
 	ga, err := compile(a)
 	if err != nil {
 		return Result{}, fmt.Errorf("A does not parse: %w", err)
